@@ -53,7 +53,7 @@ def lit(s):
 
 def gen_writer_program(rng, x, kind="mixed", types=None, nsig=None, twr=False, maxlen=6000, gaps=False, overlaps=False,
                        omit=False, annos=True, utc=True, userdata=True, late_defs=True, default_geometry_p=0.1,
-                       big_strings=False, gens=None):
+                       big_strings=False, gens=None, allow_odd_u4=False):
     """One writer session + close + lift of the write log.  Returns (program, model) where model
     holds what the generator knows about each signal (for composing reader ops)."""
     types = types or ALL_TYPES
@@ -132,8 +132,7 @@ def gen_writer_program(rng, x, kind="mixed", types=None, nsig=None, twr=False, m
             elif overlaps and rng.random() < 0.12 and s["written"]:
                 ov = rng.choice([1, 2, 3, 4, 8, 16, n, n + 5, rng.randint(1, max(1, min(s["written"], 40)))])
                 ov = min(ov, s["next"] - s["first"])
-                if w == 4 and ov % 2 == 1 and ov < n:
-                    feat.add("overlap-u4-odd")      # hangs the unchanged tree: only in dedicated programs
+                if w == 4 and ov % 2 == 1 and ov < n and not allow_odd_u4:
                     ov += 1
                     ov = min(ov, s["next"] - s["first"])
                     if ov % 2 == 1:
@@ -222,3 +221,12 @@ def reader_ops(rng, model, nreads=12, stats=False, with_defs=True):
     ops.append({"op": "userdatas"})
     ops.append({"op": "rclose"})
     return ops
+
+
+def model_json(model):
+    """the part of the generator's model that known-finding classification needs"""
+    out = {"sigs": {}}
+    for g, s in model["sigs"].items():
+        out["sigs"][str(g)] = {"dt": s["dt"], "bits": WIDTH[s["dt"]], "norm": list(s["norm"]), "length": s.get("length", 0),
+                               "first": s["first"] - s["base"], "defined": s["defined"]}
+    return out
